@@ -16,6 +16,18 @@ CLAIMS = {
     note="Trusted: Lean kernel (axioms printed in evidence), harness AST→scope-tree dump and HIR walk, the generator's coverage of scope shapes. "
          "The typer's own scoping (LocalTypeEnv) is exercised only through the acceptance oracle.",
     technique="Lean 4 proof (structural induction over the nested AST) + differential correspondence with the Rust resolver"),
+ "C15": dict(
+    category="proof",
+    text="Lean theorems over a state machine of the artefact protocol (sources, .interface and .core files, ops edit/check/build/link/"
+         "single-field corruption/foreign-version file) for an arbitrary injective hash: link_sound (for every history, a successful link "
+         "implies every package was type-checked against exactly the interface view — transitively, deps are hashed — carried by the linked "
+         "dependency), body_edit_hash_stable, iface_edit_hash_changes, dep_hash_propagates, stale_rejected, corrupt_core_rejected, "
+         "corrupt_iface_rejected, other_version_*_rejected. Tied to artifact.rs/separate.rs by replaying generated histories on the real "
+         "check_package/build_package/read_core/link_cores with JSON files and comparing every outcome (ok/err class, hash identity pattern).",
+    design_ref="§5 C15",
+    note="Trusted: Lean kernel; injectivity of SHA-256∘serde_json is a hypothesis; edit catalogue of 10 interface variants; textual JSON mutation; "
+         "error-message classification in harness/src/c15.rs. Known finding: core_ir is covered by no digest.",
+    technique="Lean 4 proof (invariant by induction over operation histories) + history-level differential correspondence"),
 }
 
 NOT_YET = "not claimed yet: the model/theorems/tie for this property are still being built (see DESIGN.md §5)"
